@@ -71,6 +71,11 @@ impl<K, V, S> BaseCache<K, V, S> {
     pub(crate) fn verif_channel_lens(&self) -> (usize, usize) {
         (self.inner.read_op_ch.len(), self.inner.write_op_ch.len())
     }
+
+    /// Capacity of the bounded write operation queue.
+    pub(crate) fn verif_write_queue_capacity(&self) -> usize {
+        self.inner.write_op_ch.capacity().unwrap_or(usize::MAX)
+    }
 }
 
 impl<K, V, S> Inner<K, V, S>
